@@ -158,7 +158,7 @@ func recSummary(rec *Rec) map[string]any {
 // on db/memory and db/pebblev2 (also after closing and reopening the store).
 // ---------------------------------------------------------------------------------------------
 
-func (h *H) phaseRecords() {
+func (h *H) phaseRecords(shard, shards int) {
 	groups := h.f.Scale(6, 60)
 	perGroup := h.f.Scale(8, 12)
 	kinds := []string{"memory", "pebble-mem"}
@@ -166,7 +166,7 @@ func (h *H) phaseRecords() {
 		kinds = append(kinds, "pebble-disk")
 	}
 	for gi := 0; gi < groups; gi++ {
-		if !h.want("records", gi) {
+		if gi%shards != shard || !h.want("records", gi) {
 			continue
 		}
 		kind := kinds[gi%len(kinds)]
@@ -242,32 +242,46 @@ func (h *H) recordGroup(gi int, kind string, perGroup int) {
 	}
 	// the chain height key holds the last written number; make it the maximum so that "head" is defined
 	_ = be.store.Update(func(w db.IndexedBatch) error { return core.WriteChainHeight(w, maxH) })
-	for pass := 0; pass < 2; pass++ {
+	mkChecker := func(rec *Rec, ri int, label, tag string) *Checker {
+		return &Checker{res: res, backend: be.name + label, sigTag: tag, replay: func(accessor, detail string) any {
+			d := recSummary(rec)
+			d["accessor"] = accessor
+			d["detail"] = detail
+			d["record_in_group"] = ri
+			d["backend"] = be.name + label
+			return h.spec("records", gi, d)
+		}}
+	}
+	// pass 0: plain; pass 1: the store recycles (poisons) every buffer it lent out; pass 2: reopened
+	for pass := 0; pass < 3; pass++ {
 		store := be.store
-		if pass == 1 {
+		label, tag := "", ""
+		switch pass {
+		case 1:
+			store = newPoisonStore(be.store)
+			label, tag = "(buffers recycled)", "after-buffer-reuse-"
+			res.Hit("backend:" + be.name + label)
+		case 2:
 			if be.reopen == nil {
-				break
+				continue
 			}
 			ns, err := be.reopen()
 			if err != nil {
 				res.Note("reopen %s: %v", be.name, err)
-				break
+				continue
 			}
 			store = ns
-			res.Hit("backend:" + be.name + "(reopened)")
+			label = "(reopened)"
+			res.Hit("backend:" + be.name + label)
 		}
 		bc := blockchain.New(store, lib.TestNetwork())
 		for ri, rec := range recs {
-			c := &Checker{res: res, backend: be.name, replay: func(accessor, detail string) any {
-				d := recSummary(rec)
-				d["accessor"] = accessor
-				d["detail"] = detail
-				d["record_in_group"] = ri
-				d["backend"] = be.name
-				return h.spec("records", gi, d)
-			}}
+			c := mkChecker(rec, ri, label, tag)
 			ReadBack(c, store, bc, rec, rec.Header.Number == maxH)
-			res.Case(fmt.Sprintf("record/%s/%d/%d", kind, gi, ri), len(rec.Txs)+len(rec.Rcs) > 0)
+			res.Case(fmt.Sprintf("record/%s/%d/%d/%d", kind, gi, ri, pass), len(rec.Txs)+len(rec.Rcs) > 0)
+			if pass > 0 {
+				continue
+			}
 			res.Hit(fmt.Sprintf("record:txs=%s", bucket(len(rec.Txs))))
 			if len(rec.Txs) != len(rec.Rcs) {
 				res.Hit("record:txs!=receipts")
@@ -280,6 +294,11 @@ func (h *H) recordGroup(gi int, kind string, perGroup int) {
 					"txs": len(rec.Txs), "receipts": len(rec.Rcs), "accessor_reads": c.n})
 			}
 		}
+	}
+	// last: the lazy consumer of the revert path, on recycled buffers, for every record
+	ps := newPoisonStore(be.store)
+	for ri, rec := range recs {
+		DeleteCheck(mkChecker(rec, ri, "(buffers recycled)", "after-buffer-reuse-"), ps, rec)
 	}
 }
 
@@ -299,7 +318,7 @@ func versionOf(tx core.Transaction) string {
 // SanityCheckNewHeight + Store on both state backends, read back through everything.
 // ---------------------------------------------------------------------------------------------
 
-func (h *H) phaseChain() {
+func (h *H) phaseChain(shard, shards int) {
 	type cfg struct {
 		srcNew, dstNew bool
 		kind           string
@@ -313,7 +332,7 @@ func (h *H) phaseChain() {
 	}
 	blocks := h.f.Scale(40, 400)
 	for ci, c := range cfgs {
-		if !h.want("chain", ci) {
+		if ci%shards != shard || !h.want("chain", ci) {
 			continue
 		}
 		h.chainCase(ci, c.srcNew, c.dstNew, c.kind, blocks, c.versions)
@@ -374,8 +393,12 @@ func (h *H) chainCase(ci int, srcNew, dstNew bool, kind string, blocks int, vers
 		recs = append(recs, rec)
 	}
 	check := func(store db.KeyValueStore, bc *blockchain.Blockchain, label string) {
+		tag := ""
+		if label == "(buffers recycled)" {
+			tag = "after-buffer-reuse-"
+		}
 		for i, rec := range recs {
-			c := &Checker{res: res, backend: name + label, replay: func(accessor, detail string) any {
+			c := &Checker{res: res, backend: name + label, sigTag: tag, replay: func(accessor, detail string) any {
 				d := recSummary(rec)
 				d["accessor"] = accessor
 				d["detail"] = detail
@@ -412,6 +435,8 @@ func (h *H) chainCase(ci int, srcNew, dstNew bool, kind string, blocks int, vers
 		}
 	}
 	check(be.store, bc, "")
+	ps := newPoisonStore(be.store)
+	check(ps, lib.NodeOn(ps, g.Net, dstNew), "(buffers recycled)")
 	if be.reopen != nil {
 		ns, err := be.reopen()
 		if err != nil {
